@@ -3,6 +3,7 @@ package zygo
 import (
 	"fmt"
 	"reflect"
+	"sort"
 	"time"
 )
 
@@ -154,8 +155,13 @@ func (r *GoStructRegistryType) EnvAvail(env *Zlisp) {
 	if len(r.LazyFunc) == 0 {
 		return
 	}
-	for nm, fn := range r.LazyFunc {
-		env.AddFunction(nm, fn)
+	names := make([]string, 0, len(r.LazyFunc))
+	for nm := range r.LazyFunc {
+		names = append(names, nm)
+	}
+	sort.Strings(names)
+	for _, nm := range names {
+		env.AddFunction(nm, r.LazyFunc[nm])
 	}
 	// clear it out, all added.
 	r.LazyFunc = make(map[string]ZlispUserFunction)
@@ -397,12 +403,18 @@ func TypeListFunction(env *Zlisp, name string, args []Sexp) (Sexp, error) {
 }
 
 func (env *Zlisp) ImportBaseTypes() {
-	for _, e := range GoStructRegistry.Builtin {
-		env.AddGlobal(e.RegisteredName, e)
-	}
-
-	for _, e := range GoStructRegistry.Userdef {
-		env.AddGlobal(e.RegisteredName, e)
+	for _, m := range []map[string]*RegisteredType{GoStructRegistry.Builtin, GoStructRegistry.Userdef} {
+		// sorted, so that the symbol numbers handed out by
+		// AddGlobal do not depend on map iteration order.
+		names := make([]string, 0, len(m))
+		for nm := range m {
+			names = append(names, nm)
+		}
+		sort.Strings(names)
+		for _, nm := range names {
+			e := m[nm]
+			env.AddGlobal(e.RegisteredName, e)
+		}
 	}
 }
 
